@@ -21,8 +21,13 @@ def divisors(n):
     return [d for d in range(1, n + 1) if n % d == 0]
 
 
+import functools
+
+
+@functools.lru_cache(maxsize=None)
 def chains(n, p):
-    """Brute-force count of factorisation chains: explicit enumeration of tuples."""
+    """Brute-force count of factorisation chains: enumeration of every choice of the outermost
+    factor, recursively (memoised on (n, pattern))."""
     if len(p) <= 1:
         return 1
     total = 0
@@ -116,7 +121,7 @@ def replay(p):
     for o in [rnd.randint(80, 3000) for _ in range(40)]:
         for i in divisors(o)[:6]:
             extra.append((o, i))
-    counts = [(n, pat) for n in range(1, 25) for L in range(0, 5) for pat in itertools.product([False, True], repeat=L)]
+    counts = [(n, pat) for n in list(range(1, 40)) + [k * k for k in range(6, 16)] + [rnd.randint(40, 300) for _ in range(20)] for L in range(0, 5) for pat in itertools.product([False, True], repeat=L)]
     ev, bad = _sweep(T, M, ns, pairs + extra, counts)
     if bad:
         return {"failed": True, "input": bad, "observed": bad["observed"], "required": bad["required"], "evaluations": ev}
@@ -132,7 +137,8 @@ def crosscheck(p):
     for o in [rnd.randint(30, 3000) for _ in range(budget // 4)]:
         ds = divisors(o)
         pairs += [(o, rnd.choice(ds)), (o, rnd.randint(1, o))]
-    counts = [(n, pat) for n in range(1, 14 if budget <= 200 else 40) for L in range(0, 5) for pat in itertools.product([False, True], repeat=L)]
+    top = 150 if budget <= 200 else 400
+    counts = [(n, pat) for n in list(range(1, 30)) + [rnd.randint(30, top) for _ in range(20)] + [k * k for k in range(6, 14)] for L in range(0, 5) for pat in itertools.product([False, True], repeat=L)]
     ev, bad = _sweep(T, M, ns, pairs, counts)
     if bad:
         return {"failed": True, "input": bad, "observed": bad["observed"], "required": bad["required"]}
